@@ -315,6 +315,36 @@ def nonlinear_prog(stmts):
     return False
 
 
+def expr_degree(e):
+    if e[0] == "const":
+        return 0
+    if e[0] == "var":
+        return 1
+    if e[0] in ("add", "sub"):
+        return max(expr_degree(e[1]), expr_degree(e[2]))
+    if e[0] == "mul":
+        return expr_degree(e[1]) + expr_degree(e[2])
+    if e[0] == "pow":
+        return e[2] * expr_degree(e[1])
+    return expr_degree(e[1])
+
+
+def prog_degree(stmts):
+    d = 1
+    for s in stmts:
+        if s[0] == "assign":
+            rs = [s[2]]
+        elif s[0] == "simult":
+            rs = [r for _, r in s[1]]
+        else:
+            d = max([d] + [prog_degree(b) for _, b in s[1]] + ([prog_degree(s[2])] if s[2] else []))
+            continue
+        for r in rs:
+            if r[0] == "choice":
+                d = max([d] + [expr_degree(e) for _, e in r[1]])
+    return d
+
+
 def oracle_depth(p, nmax, budget=300):
     """depth of the path enumeration: the number of paths is b**n, and with non-linear updates the
     size of the numbers doubles with every iteration"""
@@ -324,6 +354,9 @@ def oracle_depth(p, nmax, budget=300):
         n -= 1
     if b >= 2 and nonlinear_prog(p["body"]):
         n = min(n, 6)
+    d = prog_degree(p["body"])
+    while d >= 3 and n > 3 and d ** n > 5000:   # the numbers have about d**n digits
+        n -= 1
     return n
 
 
@@ -516,10 +549,19 @@ def s_types(flat, sdump):
     return sorted(out.items())
 
 
+def s_point(pt, symbols, sdump):
+    """Polar's convention: a variable the synthesized program does not initialise starts at the
+    symbol <v>0, i.e. at the value the point gives to v"""
+    inits = {a["var"] for a in sdump["init"] if "var" in a}
+    full = full_point(pt, symbols, sdump["variables"])
+    return {v: val for v, val in full.items() if v in sdump["variables"] and v not in inits}
+
+
 def sim_case(flat, pt, sdump, subs, sysd, Qd, k, sv, cm):
-    fpO = core.flat_coq(flat_with_point(flat, full_point(pt, {k_: str(v_) for k_, v_ in subs.items()}, flat["variables"])))
+    syms = {k_: str(v_) for k_, v_ in subs.items()}
+    fpO = core.flat_coq(flat_with_point(flat, full_point(pt, syms, flat["variables"])))
     TO = core.types_coq(flat["types"])
-    fpS = core.flat_coq(sdump, subs)
+    fpS = core.flat_coq(flat_with_point(sdump, s_point(pt, syms, sdump)), subs)
     TS = core.types_coq(s_types(flat, sdump))
     ms = [mono_of(d[0][1]) for d in sysd["monomial_dumps"]]
     ms_c = P.lst([P.mono_coq(m) for m in ms])
@@ -670,7 +712,7 @@ def run(ctx):
         if e.get("k1only") or (e["cand"] is not None and len(e["cand"]) == 0):
             modes = ["k1", "loop"] if e.get("k1only") else ["loop"]
         e["modes"] = modes
-        e["N"] = 3 if "deg-5" in e["name"] else (5 if "nagata" in e["name"] else oracle_depth(e["ast"], N))
+        e["N"] = min(3 if "deg-5" in e["name"] else (5 if "nagata" in e["name"] else N), oracle_depth(e["ast"], N))
         tasks.append({"kind": "synth", "text": e["text"], "cand": e["cand"], "deg": e["deg"], "modes": modes,
                       "points": e["points"], "nvals": e["N"], "timeout": 150})
     import time
@@ -777,7 +819,7 @@ def run(ctx):
                             mons += [mkey(mono_of(mon)) for _, mon in pin["Q"]]
                         need_oracle(okey, with_point(e["ast"], pt), mons, e["N"], full_point(pt, sin.get("symbols"), P.prog_vars(e["ast"])))
                         try:
-                            sast = core.prog_from_dump(pd["dump"], subs)
+                            sast = with_point(core.prog_from_dump(pd["dump"], subs), s_point(pt, sin.get("symbols"), pd["dump"]))
                             skey = ("S", ei, mode, qi, pi)
                             job["skey"] = skey
                             smons = [mkey({v: 1}) for v in retained] + [mkey({v: 2}) for v in retained]
